@@ -257,6 +257,7 @@ theorem rel_clear_marked {w : WM} {iss : List Handle} {s : WS} (hr : Rel ⟨w, i
       · rintro ⟨hm, _⟩; cases hm
       · rintro ⟨h, hm, _⟩; cases hm
     markedLt := fun o hm => by cases hm
+    markedOld := fun o hm => by cases hm
     markedNodup := List.nodup_nil }
 
 theorem update_unlocked_refines {c : CW} {s : WS} (hi : Inv c) (hb : Bounds c) (hr : Rel c s)
